@@ -1183,6 +1183,8 @@ def message_buildup(fi, nm, call, bn, nid, result=None):
     if result is not None:
         allowed.add(id(result))
     for st in walk_no_nested(fi.node):
+        if isinstance(st, ast.Return) and isinstance(st.value, ast.Name) and st.value.id == nm:
+            allowed.add(id(st.value))  # handing the message out at another exit does not change it
         if isinstance(st, ast.Assign) and len(st.targets) == 1 and isinstance(st.targets[0], ast.Name) and st.targets[0].id == nm:
             allowed.add(id(st.targets[0]))
         if isinstance(st, ast.Assign):
@@ -1335,6 +1337,16 @@ def a(ctx):
                 ctx.need(isinstance(pay, ast.Subscript) and chain(pay.value) == "self.payload" and isinstance(pay.slice, ast.Slice) and pay.slice.step is None
                          and pay.slice.lower is not None and pay.slice.upper is not None,
                          "_extract_block: payload of the block is not a slice self.payload[lo:hi]")
+                opt = b1 if b1 is not None else b2
+                elts = block_triple(opt)
+                ctx.need(elts is not None, "_extract_block: block option is not a (num, more, szx) triple")
+                # a local the expansion could not replace by its definitions (bound by a loop / with / an impure
+                # call, possibly unbound, rebound after the value was taken) is a value the checker does not know:
+                # comparing its *name* with the reference would report a violation about nothing
+                for part in (pay.slice.lower, pay.slice.upper) + tuple(elts):
+                    for x in ast.walk(part):
+                        if isinstance(x, ast.Name) and (writes_to_name(fi.node, x.id.split("@")[0]) or "@" in x.id):
+                            raise AnalysisError("_extract_block: the value of local %s in %s cannot be traced to its definitions" % (x.id, stmt_text(part, 60)))
                 try:
                     lo, hi = N.poly(pay.slice.lower), N.poly(pay.slice.upper)
                 except NormError as e:
@@ -1356,9 +1368,6 @@ def a(ctx):
                 is_resp = ("nottruth", "self.code.is_request()") in lits
                 rec(r, "%s: requests carry the descriptor in Block1, responses in Block2" % W, (is_req and b1 is not None) or (is_resp and b2 is not None),
                     "%s: %s under %s" % (t, "block1" if b1 is not None else "block2", _show(lits)))
-                opt = b1 if b1 is not None else b2
-                elts = block_triple(opt)
-                ctx.need(elts is not None, "_extract_block: block option is not a (num, more, szx) triple")
                 try:
                     on, os_ = N.poly(elts[0]), N.poly(elts[2])
                 except NormError as e:
